@@ -3,6 +3,7 @@ import SF.Lemmas.Lagf
 import SF.Lemmas.Roof
 import SF.Lemmas.LagRsi
 import SF.Lemmas.Flex
+import SF.Lemmas.CyberCycle
 import SF.Lemmas.Real
 import Mathlib.Analysis.Real.Pi.Bounds
 /-
@@ -28,6 +29,12 @@ started at the first value, output (L0 + 2L1 + 2L2 + L3)/6 — for every γ and 
 `len − 1` / `len − 2` indexing are proved equal to plain delays) -/
 theorem laguerreFilter_eq (g : α) (xs : List α) :
     (lagfCore (α := α) g).outAfter xs = .ok (Spec.laguerreFilter g xs) := Lagf.outAfter_eq g xs
+
+/-- **CyberCycle equals the batch re-evaluation** (N ≥ 6, the least window its constructor accepts): c(t) = 0 for t < N−1;
+then c(t) = (1−α/2)²·(s(t) − 2s(t−1) + s(t−2)) + 2(1−α)·c(t−1) − (1−α)²·c(t−2) with s the 4-tap smoothing
+(x(t) + 2x(t−1) + 2x(t−2) + x(t−3))/6 and α = 2/(N+1) -/
+theorem cyberCycle_eq (N : Nat) (hN : 6 ≤ N) (xs : List α) :
+    (ccCoreU (α := α) N).outAfter xs = .ok (Spec.cyberCycle N xs) := CC.cyberCycle_eq N hN xs
 
 /-- **TrendFlex equals the batch re-evaluation** (N ≥ 3, the least window that holds two previous filter values): the
 flex smoother a1 = exp(−8.88442402435/N), b1 = 2·a1·cos(4.44221201218/N) started with x(−1) = x(0); the mean over N of the
